@@ -232,6 +232,28 @@ def memory_listing_rules(facts, rep, w, D):
     return n
 
 
+class _P5:
+    """files another module's obligations under one rule id of this property"""
+
+    def __init__(self, rep, prefix):
+        self._rep, self._prefix, self.analysed = rep, prefix, rep.analysed
+
+    def ob(self, rule, fn, desc, ok, detail="", loc=None):
+        return self._rep.ob("%s/%s" % (self._prefix, rule), fn, desc, ok, detail, loc)
+
+    def fail(self, rule, fn, desc, detail="", loc=None):
+        return self.ob(rule, fn, desc, False, detail, loc)
+
+    def floor(self, *a):
+        return None
+
+    def note(self, t):
+        self._rep.note(t)
+
+    def assume(self, t):
+        self._rep.assume(t)
+
+
 def run(facts, rep, tier, ctx):
     D = Discharger(facts, load_records(os.path.join(ctx["V"], "rules", "panic_records.json")))
     ws = World(facts, False)
@@ -262,6 +284,9 @@ def run(facts, rep, tier, ctx):
     for o in scratch.obligations:
         if o["rule"] == "R02.1" and ("open_file" in o["key"] or "read_dir" in o["key"]):
             rep.ob("R05.6", o["fn"], o["key"].split("|")[2], o["ok"], o["detail"], o["loc"])
+    # listed names are rebuilt by adapters with filename(): filename = the part after the last '/' and nothing else
+    from . import c06
+    c06.accessor_rules(facts, _P5(rep, "R05.5f"), D)
     # which std call each PhysicalFS observer makes (metadata follows links like open/read_dir/exists do: lstat would make
     # a linked directory listable but "a file")
     from .. import physrules
